@@ -22,6 +22,7 @@ import (
 	"sync/atomic"
 
 	"github.com/B1NARY-GR0UP/originium/pkg/logger"
+	"github.com/B1NARY-GR0UP/originium/pkg/vhook"
 	"github.com/B1NARY-GR0UP/originium/types"
 )
 
@@ -80,6 +81,7 @@ func Open(dir string, config Config) (*DB, error) {
 
 	atomic.StoreUint32(&db.state, uint32(StateInitialize))
 
+	vhook.Event("open.begin", dir)
 	// recover from exist wal
 	mt := newMemtable(dir, config.SkipListMaxLevel, config.SkipListP)
 	walMaxVersion := mt.recover()
@@ -97,6 +99,7 @@ func Open(dir string, config Config) (*DB, error) {
 	db.oracle.commitMark.Done(maxTs)
 	db.oracle.nextTs = maxTs + 1
 
+	vhook.Event("open.done", maxTs)
 	go db.run()
 	return db, nil
 }
@@ -108,10 +111,12 @@ func (db *DB) Close() {
 	db.oracle.writeLock.Lock()
 	defer db.oracle.writeLock.Unlock()
 
+	vhook.Event("close.begin")
 	db.closeC <- struct{}{}
 	// wait until every queued immutable memtable is flushed: a sstable must never hold
 	// newer versions than a wal which is still to be flushed, recovery relies on that order
 	<-db.closed
+	vhook.Event("close.drained")
 
 	mt := db.memtable
 	mt.freeze()
@@ -122,6 +127,7 @@ func (db *DB) Close() {
 			db.logger.Warnf("failed to delete immutable wal file: %v", err)
 		}
 	}
+	vhook.Event("close.done")
 }
 
 func (db *DB) View(fn TxnFunc) error {
@@ -208,15 +214,19 @@ func (db *DB) rawset(entries ...types.Entry) {
 		db.memtable = db.memtable.reset()
 		db.mu.Unlock()
 
+		vhook.Event("rotate", imt.wal.Version(), db.memtable.wal.Version())
 		db.flushC <- imt
+		vhook.Event("rotate.sent", imt.wal.Version())
 	}
 }
 
 func (db *DB) flushImmutable(imt *memtable) {
+	vhook.Event("flush.begin", imt.wal.Version())
 	// flush immutable memtable to L0
 	if err := db.manager.flushToL0(imt.all()); err != nil {
 		db.logger.Panicf("failed to flush immutable memtable: %v", err)
 	}
+	vhook.Event("flush.added", imt.wal.Version())
 	// delete wal file
 	if err := imt.wal.Delete(); err != nil {
 		db.logger.Panicf("failed to delete immutable wal file: %v", err)
@@ -232,12 +242,15 @@ LOOP:
 		select {
 		case imt := <-db.flushC:
 			db.flushImmutable(imt)
+			vhook.Event("compact.check")
 			db.manager.checkAndCompact()
 
+			vhook.Event("flush.remove", imt.wal.Version())
 			db.mu.Lock()
 			// immutables are flushed in the order they were frozen (oldest first)
 			db.immutables.Remove(db.immutables.Front())
 			db.mu.Unlock()
+			vhook.Event("flush.done", imt.wal.Version())
 
 			if closed && len(db.flushC) == 0 {
 				break LOOP
